@@ -210,6 +210,7 @@ type VerifPoolInfo struct {
 	ClosedConn int
 	PoolClosed bool
 	Filling    bool
+	HostUp     bool // the session considers the host up (a host convicted down is not refilled until it is reported up again)
 }
 
 func VerifPools(s *Session) []VerifPoolInfo {
@@ -218,7 +219,7 @@ func VerifPools(s *Session) []VerifPoolInfo {
 		return out
 	}
 	for _, p := range s.pool.hostConnPools {
-		pi := VerifPoolInfo{Addr: p.host.ConnectAddress().String(), Size: p.size, Conns: len(p.conns), PoolClosed: p.closed, Filling: p.filling}
+		pi := VerifPoolInfo{Addr: p.host.ConnectAddress().String(), Size: p.size, Conns: len(p.conns), PoolClosed: p.closed, Filling: p.filling, HostUp: p.host.IsUp()}
 		for _, c := range p.conns {
 			if c.closed {
 				pi.ClosedConn++
